@@ -113,6 +113,7 @@ func VerifC32BytesCompare() {
 }
 
 // inputs longer than 64 bytes are rejected by every byte-math opcode
+//
 //verif:harness prop=C32 reach=done unwind=80
 func VerifC32BytesLimit() {
 	long := make([]byte, 65)
